@@ -38,7 +38,7 @@ try:
     CLI_X = c15_cli.extract(REPO)
 except Exception as e:  # noqa
     CLI_ERR = '%s: %s' % (type(e).__name__, e)
-chk.lean(['VermouthProps.C15', 'VermouthProps.C15_Cli', 'VermouthProps.C15_CliTable', 'VermouthProps.C15_Num'], 'driver_c15',
+chk.lean(['VermouthProps.C15', 'VermouthProps.C15_Cli', 'VermouthProps.C15_CliTable', 'VermouthProps.C15_Num', 'VermouthProps.C15_Name'], 'driver_c15',
          generated={'C15Cli.lean': CLI_X['lean']} if CLI_X else None)
 if CLI_ERR:
     chk.broken.append(('extract:martinize2-elastic-options', CLI_ERR))
@@ -92,15 +92,19 @@ LOG.addHandler(HANDLER)
 # ---- real command-line runs: started now in a forked child, collected at the end ------------------------------
 def cli_opts(**kw):
     o = {'elastic': True, 'go': False, 'ff': 'martini3001', 'ff_given': False, 'floats': {}, 'ermd': None, 'eb': None,
-         'eunit': None, 'other': [], 'nres': 8, 'shift': 14.0, 'finish': False}
+         'eunit': None, 'sep': False, 'name': None, 'other': [], 'nres': 8, 'shift': 14.0, 'finish': False, 'pdb': None,
+         'ss': None}
     o.update(kw)
     return o
 
 
 CLI_RUNS = [
     cli_opts(),                                                  # two molecules, every default, force-field variables
-    cli_opts(other=['-merge', 'A,B'], eunit='3:6,5:12', eb='BB,SC1', ermd='0', finish=True,
+    cli_opts(other=['-merge', 'A,B'], eunit='3:6,5:12', eb='BB,SC1', ermd='0', finish=True, name='prot',
              floats={'-ef': '500', '-el': '0.5', '-eu': '1.0', '-ea': '1', '-ep': '1', '-em': '10'}),
+    # a homodimer in two conformations: one molecule type before the network, two after (fix 834f70d)
+    cli_opts(ff='martini22', ff_given=True, pdb=os.path.join(VERIF, 'corpus', 'probes', 'c03_elastic_homodimer.pdb'), ss='C',
+             finish=True),
 ]
 if chk.thorough:
     CLI_RUNS += [
@@ -114,6 +118,9 @@ if chk.thorough:
                  ermd='3'),
         cli_opts(eunit='all', floats={'-em': '700'}, shift=10.0),
         cli_opts(eunit='all', ermd='0', eb='', shift=10.0),
+        cli_opts(sep=True, name='x', shift=40.0, finish=True),
+        cli_opts(ff='martini22', ff_given=True, pdb=os.path.join(VERIF, 'corpus', 'probes', 'c03_elastic_homodimer.pdb'), ss='C',
+                 sep=True, eunit='chain'),
     ]
 
 
@@ -135,7 +142,8 @@ CLI_HANDLE = None
 if CLI_X is not None:
     if chk._cov is not None:
         chk._cov.stop()         # the child would trace a whole command-line run line by line
-    CLI_HANDLE = c15_cli.start_cli_runs(REPO, [(cli_argv(o), o['nres'], o['shift'], o['finish']) for o in CLI_RUNS],
+    CLI_HANDLE = c15_cli.start_cli_runs(REPO, [(cli_argv(o), o['nres'], o['shift'], o['finish'], o['pdb'], o['ss'])
+                                               for o in CLI_RUNS],
                                         cli_probes)
     if chk._cov is not None:
         chk._cov.start()
@@ -1297,7 +1305,8 @@ for ln, (cid, impl, errs, nt), mo in zip(reg_lines, reg_meta, reg_models):
 # ---- the command-line layer -------------------------------------------------------------------------------------
 def cli_line(o, probes):
     fl = [frac(float(o['floats'][f])) if f in o['floats'] else None for f in ('-ef', '-el', '-eu', '-ea', '-ep', '-em')]
-    return line('cli', bool(o['elastic']), bool(o['go']), o['ff'], *fl, o['ermd'], o['eb'], o['eunit'], probes)
+    return line('cli', bool(o['elastic']), bool(o['go']), o['ff'], *fl, o['ermd'], o['eb'], o['eunit'], bool(o.get('sep')),
+                o.get('name'), probes)
 
 
 if CLI_X is not None:
@@ -1364,6 +1373,73 @@ if CLI_X is not None:
                       (head == 'proc' and info['kind'] == '2' and 1 in info['table'] and 0 in info['table'])
                       or head in ('errint', 'errfaulty')))
     for ln, (cid, impl, errs, nt), mo in zip(clines, cmeta, chk.drv.ask(clines) if chk.lean_ok else [None] * len(clines)):
+        chk.case(cid, ln, impl, mo, errs, nt)
+
+
+    # (c2) the molecule types after the network: the real NameMolType on systems of molecules that are equal but for their
+    #      coordinates and the elastic bonds added to them
+    rng = chk.rng('typesafter')
+    tlines, tmeta = [], []
+    for i in range(3000 if chk.thorough else 350):
+        ff = vermouth.forcefield.ForceField(name='verif_c15')
+        n = rng.choice([3, 4, 5])
+        pairs = [(a, b) for a in range(n) for b in range(a + 1, n)]
+        prior = [(a, b, [1, rng.choice([0.35, 0.47]), 1250]) for a, b in rng.sample(pairs, rng.choice([0, 1, 2]))]
+
+        def rnet():
+            return [(a, b, [6, rng.choice([0.61, 0.58, 0.58001]), rng.choice([500.0, 700.0])])
+                    for a, b in rng.sample(pairs, rng.choice([0, 1, 2, 3]))]
+        pool = [rnet(), rnet()]
+        if pool[0]:
+            v = [list(x) for x in pool[0]]
+            k = rng.randrange(len(v))
+            how = rng.choice(['length', 'order', 'orientation', 'drop'])
+            if how == 'length':
+                v[k] = (v[k][0], v[k][1], [6, v[k][2][1] + 0.00001, v[k][2][2]])
+            elif how == 'order':
+                v.reverse()
+            elif how == 'orientation':
+                v[k] = (v[k][1], v[k][0], v[k][2])
+            else:
+                del v[k]
+            pool.append([tuple(x) for x in v])
+        dedup = rng.random() < 0.8
+        system = vermouth.System()
+        mols_t, bondlists = [], []
+        for _ in range(rng.choice([2, 2, 3, 4])):
+            mol = Molecule(force_field=ff, nrexcl=1)
+            for a in range(n):
+                mol.add_node(a, atomname='BB', resname='ALA', resid=a + 1, chain=rng.choice('AB'),
+                             position=np.array([rng.random(), rng.random(), rng.random()]))
+            for a in range(n - 1):
+                mol.add_edge(a, a + 1)
+            for a, b, prm in prior:
+                mol.add_interaction('bonds', (a, b), list(prm))
+            net = rng.choice(pool)
+            for a, b, prm in net:                          # what apply_rubber_band does with each emitted bond
+                mol.add_interaction('bonds', atoms=(a, b), parameters=list(prm), meta={'group': 'Rubber band'})
+            system.add_molecule(mol)
+            enc_b = lambda a, b, prm, grp: [a, b, ' '.join(str(x) for x in prm) + grp]
+            mols_t.append([n, [enc_b(a, b, prm, '') for a, b, prm in prior], [enc_b(a, b, prm, ' Rubber band') for a, b, prm in net]])
+            bondlists.append([(tuple(x.atoms), list(x.parameters), dict(x.meta)) for x in mol.interactions.get('bonds', [])])
+        try:
+            vermouth.NameMolType(deduplicate=dedup).run_system(system)
+            ids = [int(m.meta['moltype'].rsplit('_', 1)[1]) for m in system.molecules]
+            impl = enc(ids)
+        except Exception as e:  # noqa
+            ids, impl = None, 'error ' + type(e).__name__
+        errs = []
+        if ids is not None:
+            for x in range(len(ids)):
+                for y in range(x + 1, len(ids)):
+                    same = bondlists[x] == bondlists[y]
+                    if (ids[x] == ids[y]) != (same and dedup):
+                        errs.append('molecules %d and %d (equal but for coordinates and elastic bonds; networks %s) get the types '
+                                    '%d and %d, deduplicate=%r' % (x, y, 'equal' if same else 'different', ids[x], ids[y], dedup))
+        chk.count('typesafter_types=%s' % (len(set(ids)) if ids else 'error'))
+        tlines.append(line('typesafter', dedup, mols_t))
+        tmeta.append(('typesafter-%d' % i, impl, errs, ids is not None and dedup and 1 < len(set(ids)) < len(ids)))
+    for ln, (cid, impl, errs, nt), mo in zip(tlines, tmeta, chk.drv.ask(tlines) if chk.lean_ok else [None] * len(tlines)):
         chk.case(cid, ln, impl, mo, errs, nt)
 
 # ---- length rounding: model vs numpy on all small squared distances -----------------------------
@@ -1455,13 +1531,49 @@ if CLI_HANDLE is not None:
             all_rendered += [' '.join(b.rendered) for b in rubber]
             real = (res['exc'], rubber, [Warn(w) for w in res['warnings']], m['intact'])
             mol_cases.append(('clirun-%d-mol%d' % (i, j), spec, 'clirun', real))
+        rerrs = run_meta[-1][2]
+        names = res.get('names_after')
+        rendered = [sorted((tuple(b[0]), ' '.join(b[2])) for b in m['rubber']) for m in res['mols']]
+        if names is None:
+            rerrs.append('the molecule types were not assigned again after the network')
+            names = res.get('names_last')          # the types the writer will use
+        if names is None or len(names) != len(res['mols']):
+            rerrs.append('%d molecules, types %r' % (len(res['mols']), names))
+            continue
+        # same type only if same network; -sep: all types differ
+        for x in range(len(names)):
+            for y in range(x + 1, len(names)):
+                if names[x] == names[y] and rendered[x] != rendered[y]:
+                    rerrs.append('molecules %d and %d are both of type %r but carry different elastic networks (%d / %d bonds)'
+                                 % (x, y, names[x], len(rendered[x]), len(rendered[y])))
+                if names[x] == names[y] and o['sep']:
+                    rerrs.append('-sep: molecules %d and %d share the type %r' % (x, y, names[x]))
+        chk.count('clirun_types_after_network=%d_of_%d_molecules' % (len(set(names)), len(names)))
+        if len(set(map(repr, rendered))) > 1:
+            chk.count('clirun_molecules_with_different_networks')
         if 'itps' in res:
-            written = [' '.join(prm) for text in res['itps'].values() for _, _, prm in c15_cli.itp_rubber_lines(text)]
-            chk.count('clirun_itp_rubber_lines', len(written))
-            if sorted(written) != sorted(all_rendered):
-                run_meta[-1][2].append('the written ITP lists %d rubber-band bonds with parameters %r..., the processor '
-                                       'produced %d with %r...' % (len(written), sorted(written)[:2], len(all_rendered),
-                                                                    sorted(all_rendered)[:2]))
+            # every molecule against the ITP of ITS type: same parameter strings, and every length is the distance of the
+            # two beads in THIS molecule's coordinates
+            for j, (m, nm) in enumerate(zip(res['mols'], names)):
+                text = res['itps'].get('%s.itp' % nm)
+                if text is None:
+                    rerrs.append('no ITP written for type %r of molecule %d (files: %r)' % (nm, j, sorted(res['itps'])))
+                    continue
+                iatoms = c15_cli.itp_atoms(text)
+                if [(a[1], a[2], a[3]) for a in iatoms] != [(a['resid'], a['resname'], a['name']) for a in m['atoms']]:
+                    rerrs.append('the atoms of %s.itp are not those of molecule %d in order' % (nm, j))
+                    continue
+                node = {a[0]: at for a, at in zip(iatoms, m['atoms'])}
+                lines_ = c15_cli.itp_rubber_lines(text)
+                chk.count('clirun_itp_rubber_lines', len(lines_))
+                if sorted(' '.join(prm) for _, _, prm in lines_) != sorted(t for _, t in rendered[j]):
+                    rerrs.append('%s.itp lists %d rubber-band bonds, molecule %d (of that type) carries %d; parameters differ'
+                                 % (nm, len(lines_), j, len(rendered[j])))
+                for u, v, prm in lines_:
+                    pu, pv = node[u]['pos'], node[v]['pos']
+                    if isinstance(pu, list) and isinstance(pv, list) and len(prm) >= 2:
+                        LEN_CHECKS.append((rerrs, '%s.itp, molecule %d: ' % (nm, j), (u, v), d2_of(pu, pv), prm[1]))
+    flush_len_checks()
     for ln, (cid, impl, errs, nt), mo in zip(run_lines, run_meta, chk.drv.ask(run_lines) if chk.lean_ok else [None] * len(run_lines)):
         chk.case(cid, ln, impl, mo, errs, nt)
     mres = [evaluate(cid, spec, stream, real) for cid, spec, stream, real in mol_cases]
